@@ -15,9 +15,10 @@ from extract import Unit, ExtractError, VX_DIR
 
 VERIF = os.path.dirname(VX_DIR)
 REPO = os.environ.get("VLS_REPO", "/repo")
-BUILD = os.path.join(VERIF, "build")
-EVID = os.path.join(VERIF, "evidence")
-REPLAYS = os.path.join(VERIF, "replays")
+OUT = os.environ.get("VX_OUT", VERIF)          # self-test runs write to a scratch directory, never into /verif
+BUILD = os.path.join(OUT, "build")
+EVID = os.path.join(OUT, "evidence")
+REPLAYS = os.path.join(OUT, "replays")
 UNITS_DIR = os.path.join(VX_DIR, "units")
 BASELINE = os.path.join(VERIF, "baseline_obligations.json")
 KNOWN = os.path.join(VERIF, "known_findings.json")
@@ -71,9 +72,8 @@ def unit_props(template):
         props.update(m.group(1).split())
     for m in re.finditer(r"props=([\w,]+)", txt + shared_txt):
         props.update(m.group(1).split(","))
-    for m in re.finditer(r"//\[((?:C\d+[\w.\-]*\??\s*)+)\]", txt):
-        for t in m.group(1).split():
-            props.add(t.split(".")[0])
+    for t in tags_in(txt):
+        props.add(t.split(".")[0])
     return props
 
 
@@ -81,11 +81,20 @@ def all_units():
     return sorted(glob.glob(os.path.join(UNITS_DIR, "*.vx.rs")))
 
 
-def tags_on_line(line):
+TAG_GROUP = re.compile(r"\[((?:C\d+[\w.\-]*\??\s*)+)\]")
+
+
+def tags_in(text):
+    """all tags of every `//[Cxx.name] [Cyy.name] ...` comment in `text` (several bracket groups may follow one `//`)"""
     out = []
-    for m in re.finditer(r"//\[((?:C\d+[\w.\-]*\??\s*)+)\]", line):
-        out.extend(m.group(1).split())
+    for cm in re.finditer(r"//(\s*\[(?:C\d+[\w.\-]*\??\s*)+\])+", text):
+        for m in TAG_GROUP.finditer(cm.group(0)):
+            out.extend(m.group(1).split())
     return out
+
+
+def tags_on_line(line):
+    return tags_in(line)
 
 
 class UnitResult:
@@ -382,8 +391,12 @@ def main(argv):
         return 2
     results = run_units(mine)
     import kani_driver
-    kres = kani_driver.run_for(prop, tier) if hasattr(kani_driver, "run_for") else None
-    return report(prop, tier, seed, results, kres, t0)
+    kres = kani_driver.run_for(prop, tier) if (hasattr(kani_driver, "run_for") and not os.environ.get("VX_SELFTEST")) else None
+    rc = report(prop, tier, seed, results, kres, t0)
+    if tier == "thorough" and rc == 0 and not os.environ.get("VX_SELFTEST"):
+        import selftest
+        rc = selftest.run(prop, os.path.join(EVID, "%s.json" % prop))
+    return rc
 
 
 def replay(prop, path, templates, serving):
